@@ -191,16 +191,18 @@ def replay_rejected_api(p):
             lf.add_parameter('Z', zones=['not a zone'])
         elif which == 2:
             lf.add_channel('Z', cast_dtype='not a dtype')
-        else:
+        elif which == 3:
             lf.add_channel('Z', data='not an array')
+        else:
+            lf.add_channel('Z', cast_dtype=[0, '', False][which - 4])
     except (ValueError, RuntimeError, TypeError, AttributeError):
         pass
     else:
         return _res('', {'not_rejected': True})
-    st = ['ZONE', 'PARAMETER', 'CHANNEL', 'CHANNEL'][which]
+    st = ['ZONE', 'PARAMETER', 'CHANNEL', 'CHANNEL', 'CHANNEL', 'CHANNEL', 'CHANNEL'][which]
     bad = ''
     try:
-        later = [lf.add_zone, lf.add_parameter, lf.add_channel, lf.add_channel][which]('Z')
+        later = [lf.add_zone, lf.add_parameter, lf.add_channel, lf.add_channel, lf.add_channel, lf.add_channel, lf.add_channel][which]('Z')
         if later.copy_number != 0:
             bad = f'an object named Z added after the rejected call gets copy number {later.copy_number}'
         if which >= 2:
